@@ -89,7 +89,7 @@ let run_y (sg : bool) (init0 : string) (live0 : string) (changes : change list) 
   let ints s = if s = "-" then [] else List.map int_of_string (String.split_on_char ',' s) in
   let r0 = if init0 = "none" then None else Some (List.map (fun k -> { dkey = n_of_int k; dart = N0; dpay = N0 }) (ints init0)) in
   let num e = nat_of_int (int_of_string (String.sub e 1 (String.length e - 1))) in
-  let vs = List.map (fun e -> if e.[0] = 'M' then VM (num e) else if e.[0] = 'N' then VN (num e) else LV (parse_vis e)) evs in
+  let vs = List.map (fun e -> if e.[0] = 'M' then VM (num e) else if e.[0] = 'N' then VN (num e) else if e.[0] = 'Q' then VQ (num e) else LV (parse_vis e)) evs in
   match lvis_summary sg r0 (List.map n_of_int (ints live0)) changes vs with
   | None -> "REJECT"
   | Some ((live, busy), taint) ->
